@@ -259,9 +259,10 @@ if os.environ.get('PAIRS'):
     # explicit pairs for a targeted round: PAIRS="C07:C14,C17:C20" (breaking agents get them as written: first -> change1-3)
     pairs = [tuple(reversed(x.split(':'))) for x in os.environ['PAIRS'].split(',')]
 ONLY_B = bool(os.environ.get('ONLY_B'))
+ONLY_R = bool(os.environ.get('ONLY_R'))
 os.makedirs('/tmp/wt', exist_ok=True)
 for i, (a, b) in enumerate(pairs):
-    for kind, tmpl, base in ((('B', BREAK, b0),) if ONLY_B else (('B', BREAK, b0), ('R', REFAC, r0))):
+    for kind, tmpl, base in ((('B', BREAK, b0),) if ONLY_B else (('R', REFAC, r0),) if ONLY_R else (('B', BREAK, b0), ('R', REFAC, r0))):
         name = '%s%02d' % (kind, base + i)
         wt = '/tmp/wt/' + name
         if not os.path.isdir(wt):
